@@ -15,12 +15,19 @@ import sys
 from pathlib import Path
 
 import common  # noqa: F401
+import gen_translate as gt
 from gen_translate import ERRORS, Method, Unsupported, fail
+
+gt.TYPES.setdefault("tuple[Rows, int, int]", "List Row × Nat × Nat")
+RENAME = {"prefix": "prefix_"}
+LOCALS = {"prefix_entry_index": "Option Nat", "name_entry_index": "Option Nat", "term_rows": "List Row", "prefix_": "String", "name": "String"}
+ENTRY_ROWS = {("RdfPrefixEntry", "prefix"): "prefixEntry", ("RdfNameEntry", "name"): "nameEntry", ("RdfDatatypeEntry", "datatype"): "dtEntry"}
+LOOKUP_METHODS = {"encode_entry_index", "encode_prefix_term_index", "encode_name_term_index", "encode_datatype_term_index", "encode_term_index"}
 
 REPO = Path(common.REPO)
 OUT = Path(__file__).resolve().parent.parent / "lean" / "JellyGenerated" / "EncGen.lean"
 SRC = "pyjelly/serialize/encode.py"
-METHODS = ["start_row", "end_row"]
+METHODS = ["start_row", "end_row", "encode_iri_indices"]
 # attribute name -> field name, per record type reached along a path from self
 FIELDS = {
     "TermEnc": {"names": ("names", "LookupEnc"), "prefixes": ("prefixes", "LookupEnc"), "datatypes": ("datatypes", "LookupEnc"),
@@ -35,6 +42,28 @@ class EncMethod(Method):
         super().__init__("TermEncoder", fn, {}, {}, struct="Jelly.TermEnc", fields={}, name=f"TermEncoder.{fn.name}")
         self.aliases: dict[str, list[list[str]]] = {}   # local name -> list of attribute paths (a tuple of sub-objects)
         self.loopvar: dict[str, list[str]] = {}         # loop variable -> the path it stands for in this unrolled iteration
+        self.msgs: dict[str, tuple[str, str, str]] = {}  # local holding a protobuf entry message -> (class, id term, value term)
+
+    def local_type(self, name: str) -> str:
+        return LOCALS.get(name, "Nat")
+
+    def assign_local(self, ind: int, name: str, term: str) -> None:
+        super().assign_local(ind, RENAME.get(name, name), term)
+
+    def predeclare_name(self, name: str, first_assignment) -> str | None:
+        v = getattr(first_assignment, "value", None)
+        if isinstance(v, ast.Call) and isinstance(v.func, ast.Attribute) and isinstance(v.func.value, ast.Name) and v.func.value.id == "jelly":
+            return None   # a protobuf message kept symbolically (see stmt)
+        tg = getattr(first_assignment, "targets", [None])[0]
+        if isinstance(tg, ast.Tuple) and first_assignment in self.fn.body:
+            return None   # unpacked at the top level of the function: declared there
+        return RENAME.get(name, name)
+
+    def opt_value(self, e) -> str:
+        """a local known (by the enclosing `is not None` test) to hold a value"""
+        if isinstance(e, ast.Name) and self.local_type(RENAME.get(e.id, e.id)).startswith("Option"):
+            return f"(← liftE (optGet {RENAME.get(e.id, e.id)}))"
+        return self.atom(e)
 
     # -- attribute paths ----------------------------------------------------------------------
     def path_of(self, e) -> tuple[list[str], str] | None:
@@ -85,6 +114,19 @@ class EncMethod(Method):
         return super().cond(e)
 
     def expr(self, e) -> str:
+        if isinstance(e, ast.Name) and e.id in RENAME:
+            return RENAME[e.id]
+        if isinstance(e, ast.List) and not e.elts:
+            return "([] : List Row)"
+        if isinstance(e, ast.Tuple):
+            return "(" + ", ".join(self.expr(x) for x in e.elts) + ")"
+        # self.<sub-object>.<method>(args): a method of a translated lookup class, run on that sub-object
+        if isinstance(e, ast.Call) and isinstance(e.func, ast.Attribute) and e.func.attr in LOOKUP_METHODS:
+            p = self.path_of(e.func.value)
+            if p is None or p[1] != "LookupEnc" or len(p[0]) != 1:
+                fail(e, "lookup method on something that is not one of the three tables")
+            f = p[0][0]
+            return f"(← zoom (·.{f}) (fun s v => {{ s with {f} := v }}) (LookupEncoder.{e.func.attr} {self.args(e)}))"
         if isinstance(e, ast.Attribute):
             p = self.path_of(e)
             if p is None:
@@ -108,6 +150,37 @@ class EncMethod(Method):
 
     # -- statements ---------------------------------------------------------------------------
     def stmt(self, ind: int, s: ast.stmt) -> None:
+        # prefix, name = split_iri(iri_string)
+        if isinstance(s, ast.Assign) and len(s.targets) == 1 and isinstance(s.targets[0], ast.Tuple) and len(s.targets[0].elts) == 2 \
+                and isinstance(s.value, ast.Call) and isinstance(s.value.func, ast.Name) and s.value.func.id == "split_iri":
+            t = self.fresh()
+            self.emit(ind, f"let {t} := (← liftE (split_iri {self.args(s.value)}))")
+            for el, proj in zip(s.targets[0].elts, (".1", ".2")):
+                if not isinstance(el, ast.Name):
+                    fail(s, "split_iri target")
+                self.assign_local(ind, el.id, t + proj)
+            return
+        # x_entry = jelly.RdfXEntry(id=..., value=...): kept symbolically until it is wrapped in a row
+        if isinstance(s, ast.Assign) and len(s.targets) == 1 and isinstance(s.targets[0], ast.Name) and isinstance(s.value, ast.Call) \
+                and isinstance(s.value.func, ast.Attribute) and isinstance(s.value.func.value, ast.Name) and s.value.func.value.id == "jelly" \
+                and s.value.func.attr in {k[0] for k in ENTRY_ROWS} and not s.value.args and sorted(k.arg for k in s.value.keywords) == ["id", "value"]:
+            kw = {k.arg: k.value for k in s.value.keywords}
+            self.msgs[s.targets[0].id] = (s.value.func.attr, self.opt_value(kw["id"]), self.atom(kw["value"]))
+            return
+        # rows.append(jelly.RdfStreamRow(<kind>=x_entry))
+        if isinstance(s, ast.Expr) and isinstance(s.value, ast.Call) and isinstance(s.value.func, ast.Attribute) and s.value.func.attr == "append" \
+                and isinstance(s.value.func.value, ast.Name) and self.local_type(s.value.func.value.id) == "List Row" and len(s.value.args) == 1:
+            row = s.value.args[0]
+            if not (isinstance(row, ast.Call) and ast.unparse(row.func) == "jelly.RdfStreamRow" and not row.args and len(row.keywords) == 1
+                    and isinstance(row.keywords[0].value, ast.Name) and row.keywords[0].value.id in self.msgs):
+                fail(s, "appended row")
+            cls_, idt, val = self.msgs[row.keywords[0].value.id]
+            ctor = ENTRY_ROWS.get((cls_, row.keywords[0].arg))
+            if ctor is None:
+                fail(s, f"{cls_} wrapped as `{row.keywords[0].arg}`")
+            lst = s.value.func.value.id
+            self.emit(ind, f"{lst} := {lst} ++ [Row.{ctor} {idt} {val}]")
+            return
         # lookups = (self.names.lookup, self.prefixes.lookup, ...)
         if isinstance(s, ast.Assign) and len(s.targets) == 1 and isinstance(s.targets[0], ast.Name) and isinstance(s.value, ast.Tuple) \
                 and all(self.path_of(x) is not None for x in s.value.elts):
@@ -141,8 +214,8 @@ def translate() -> str:
     cd = next((n for n in tree.body if isinstance(n, ast.ClassDef) and n.name == "TermEncoder"), None)
     if cd is None:
         raise Unsupported(f"{SRC}: class TermEncoder not found")
-    out = ["import JellyModel.PyPrelude", "import JellyModel.Encode", "/-!",
-           "# GENERATED — do not edit. Translated from pyjelly/serialize/encode.py (TermEncoder.start_row / end_row) by",
+    out = ["import JellyModel.PyPrelude", "import JellyModel.Encode", "import JellyGenerated.LookupGen", "import JellyGenerated.FuncsGen", "/-!",
+           "# GENERATED — do not edit. Translated from pyjelly/serialize/encode.py (TermEncoder.start_row / end_row / encode_iri_indices) by",
            "harness/gen_translate_enc.py on every check run; `JellyProofs/TranslatedEnc.lean` proves them equal to the model's",
            "`TermEnc.beginRow` / `TermEnc.endRow`.", "-/", "set_option linter.unusedVariables false", "namespace Jelly.Gen", "open Jelly Jelly.Py", ""]
     for m in METHODS:
